@@ -1,4 +1,4 @@
-use std::collections::{HashMap, VecDeque};
+use std::collections::{HashMap, HashSet, VecDeque};
 use std::env;
 use std::path::{Path, PathBuf};
 use std::str::FromStr;
@@ -139,9 +139,14 @@ pub fn collect_sources<FS: FileSystem>(
 ) -> SourceRoot {
     let mut file_set = FileSet::new();
 
+    let mut visited = HashSet::new();
     let mut files = VecDeque::new();
     files.push_back(root_file);
     while let Some(file_id) = files.pop_front() {
+        // a file may be reached again through a cycle or a diamond
+        if !visited.insert(file_id) {
+            continue;
+        }
         let parse = db.parse(file_id);
 
         let file_path = fs.path_for_file(&file_id);
